@@ -45,14 +45,34 @@ def visitIncs (fm : FileMap) (visit : Nat → Graph → Except Err Graph) (stack
           visitIncs fm visit stack parent ptf r
             { g' with edges := addEdge parent d.file (resolveInclude ptf d) g'.edges }
 
-/-- `Reader.include`: add the vertex, read the file, explore its includes -/
+/-! ### What the decoder guarantees: no key is used twice
+
+`Tasks.UnmarshalYAML`, `Includes.UnmarshalYAML` and `Vars.UnmarshalYAML` walk their mapping
+node by hand; each refuses a key that an earlier pair of the same mapping already used
+(`duplicateKeyError`, a `TaskfileDecodeError`).  A file is a list of pairs here, exactly
+what the YAML mapping is, so the check is part of reading a file. -/
+
+def nodupNames : List Name → Bool
+  | [] => true
+  | a :: r => !r.contains a && nodupNames r
+
+/-- no duplicate key in `tasks:`, `includes:`, the file's `vars:` / `env:`, the `vars:` of
+any task and the `vars:` of any include statement -/
+def Taskfile.wellKeyed (tf : Taskfile) : Bool :=
+  nodupNames tf.tasks.names && nodupNames (tf.includes.map (·.ns))
+    && nodupB tf.vars.keys && nodupB tf.env.keys
+    && tf.tasks.all (fun t => nodupB t.vars.keys) && tf.includes.all (fun d => nodupB d.vars.keys)
+
+/-- `Reader.include`: add the vertex, read the file (a duplicate key is a decode error,
+before the version is looked at), explore its includes -/
 def visit (fm : FileMap) : Nat → List Nat → Nat → Graph → Except Err Graph
   | 0, _, _, _ => .error .internal
   | fuel + 1, stack, f, g =>
     match Store.get f fm with
     | none => .error .missing
     | some tf =>
-      if tf.version = 0 then .error .versionCheck
+      if !tf.wellKeyed then .error .decode
+      else if tf.version = 0 then .error .versionCheck
       else
         visitIncs fm (fun c g' => visit fm fuel (f :: stack) c g') stack f tf tf.includes
           { g with verts := g.verts ++ [(f, tf)] }
